@@ -338,8 +338,8 @@ func init() {
 		Required: []string{"units", "sheets", "values.checked", "universal.units", "universal.values", "universal.parse_errors", "universal.ended", "hook.depth.checks", "probes"},
 		Streams: []fw.Stream{
 			{Name: "probes", Quick: len(c08Probes), Thorough: len(c08Probes), Run: c08Probe},
-			{Name: "generated", Quick: 300000, Thorough: 8000000, Run: c08Generated},
-			{Name: "universal", Quick: 400000, Thorough: 10000000, Run: c08Universal},
+			{Name: "generated", Quick: 300000, Thorough: 48000000, Run: c08Generated},
+			{Name: "universal", Quick: 400000, Thorough: 60000000, Run: c08Universal},
 		},
 	})
 }
